@@ -4,7 +4,7 @@ C10 - sync is idempotent, never edits the truth, and reports changes truthfully.
 E2: explicit-state exploration of the *byte-level* project graph on the real implementation.
 State   = the bytes of the three project files (or MISSING)
 Events  = sync(truth kind, target set) for all 9 combinations, edit_truth(kind, version) for 6
-Start   = every combination of {missing, empty, no definition, version 1, version 2, helper function + version 1} per file (216 states)
+Start   = every combination of {missing, empty, no definition, version 1, version 2, helper function + version 1} per file (216 plain + 14 shared-file + 20 method-target states)
 Search  = breadth-first from each start state to closure (bounded by a depth cap that is reported when hit)
 Oracles = on every accepted sync transition: running the identical sync again is a self-loop on bytes; the truth file's
           bytes are unchanged; the returned report and the printed modified/unchanged lines are true exactly for the
@@ -26,8 +26,58 @@ SYNCS = [(t, tuple(k for k in pj.KINDS if k in S)) for t in pj.KINDS
 EDITS = [(k, v) for k in pj.KINDS for v in ("v1", "v2")]
 
 
+METHOD_TEXT = {
+    "missing": None,
+    "class_without_method": "class Trainer(object):\n    marker: int = 0\n",
+    "method_v1": None,  # filled below
+    "method_v1+tail": None,
+    "method_v2+tail": None,
+}
+TAIL = "\n\ndef tail_helper(a, z=3):\n    return a\n"
+
+
 def start_states():
-    return [dict(zip(pj.KINDS, combo)) for combo in itertools.product(VALS, repeat=3)]
+    plain = [dict(zip(pj.KINDS, combo), config="plain") for combo in itertools.product(VALS, repeat=3)]
+    # function and argparse function live in one file
+    shared = [{"config": "shared", "class": c, "both": b} for c in ("v1", "missing")
+              for b in ("missing", "nodef", "F", "A", "F+A", "A+F", "helper+F")]
+    # the function target is a method (Class.method); another function may follow the class
+    method = [{"config": "method", "class": c, "argparse_function": a, "function": f} for c in ("v1", "missing") for a in ("v1", "missing")
+              for f in ("missing", "class_without_method", "method_v1", "method_v1+tail", "method_v2+tail")]
+    return plain + shared + method
+
+
+def setup_project(root, start):
+    """Build the project of a start state; returns the Project."""
+    cfg = start.get("config", "plain")
+    if cfg == "plain":
+        P = pj.Project(root)
+        for k in pj.KINDS:
+            st = start[k]
+            P.write(k, None if st == "missing" else pj.prestate_text(k, st, "v1"))
+        return P
+    if cfg == "shared":
+        P = pj.Project(root)
+        P.files["function"] = P.files["argparse_function"] = "both.py"
+        P.write("class", None if start["class"] == "missing" else pj.render("class", start["class"]))
+        F, A = pj.render("function", "v1"), pj.render("argparse_function", "v1")
+        text = {"missing": None, "nodef": pj.NODEF_TEXT, "F": F, "A": A, "F+A": F + "\n\n" + A, "A+F": A + "\n\n" + F,
+                "helper+F": pj.HELPER_TEXT + "\n\n" + F}[start["both"]]
+        P.write("function", text)
+        return P
+    P = pj.Project(root, method_of="Trainer")
+    P.write("class", None if start["class"] == "missing" else pj.render("class", start["class"]))
+    P.write("argparse_function", None if start["argparse_function"] == "missing" else pj.render("argparse_function", start["argparse_function"]))
+    f = start["function"]
+    if f == "missing":
+        text = None
+    elif f == "class_without_method":
+        text = METHOD_TEXT[f]
+    else:
+        ver = "v2" if "v2" in f else "v1"
+        text = pj.render("function", ver, "train", "Trainer") + (TAIL if f.endswith("+tail") else "")
+    P.write("function", text)
+    return P
 
 
 class _Space(core.Space):
@@ -46,6 +96,11 @@ class _Space(core.Space):
 
 def abstract(P):
     return ",".join("%s=%s" % (pj.SHORT[k], pj.classify(k, P.read(k), P.name_path(k))) for k in pj.KINDS)
+
+
+def short_of(P, fn):
+    ks = [pj.SHORT[k] for k in pj.KINDS if P.files[k] == fn]
+    return "+".join(ks) or fn
 
 
 def printed_report(out):
@@ -80,10 +135,7 @@ class C10(core.Check):
 
             atexit.register(shutil.rmtree, self._dir, True)
         shutil.rmtree(self._dir, ignore_errors=True)
-        P = pj.Project(self._dir)
-        for k in pj.KINDS:
-            st = case["start"][k]
-            P.write(k, None if st == "missing" else pj.prestate_text(k, st, "v1"))
+        P = setup_project(self._dir, case["start"])
         s0 = P.snapshot()
 
         def key(snap):
@@ -94,7 +146,8 @@ class C10(core.Check):
         sites = []
         transitions = 0
         left_at_cap = 0
-        start_s = ",".join("%s=%s" % (pj.SHORT[k], case["start"][k]) for k in pj.KINDS)
+        start_s = ",".join("%s=%s" % (k if k in ("config", "both") else pj.SHORT[k], v) for k, v in sorted(case["start"].items()))
+        cfg = case["start"].get("config", "plain")
         while frontier:
             snap, depth, path = frontier.popleft()
             if depth >= self.depth_cap():
@@ -103,18 +156,20 @@ class C10(core.Check):
             for ev in [("sync",) + s for s in SYNCS] + [("edit",) + e for e in EDITS]:
                 P.restore(snap)
                 if ev[0] == "edit":
+                    if cfg != "plain":
+                        continue  # truth edits are explored in the plain configuration only
                     P.write(ev[1], pj.render(ev[1], ev[2]))
                     post = P.snapshot()
                 else:
                     truth, kinds = ev[1], ev[2]
                     ev_s = "sync(%s,{%s})" % (pj.SHORT[truth], "".join(pj.SHORT[k] for k in kinds))
                     pre_abs = abstract(P)
-                    facts = {"event": ev_s, "pre": pre_abs, "history": len(path)}
+                    facts = {"event": ev_s, "pre": pre_abs, "history": len(path), "config": cfg}
                     exc, rep, out = P.sync(truth, kinds, "api")
                     post = P.snapshot()
                     transitions += 1
                     changed = {fn: snap.get(fn) != post.get(fn) for fn in set(snap) | set(post)}
-                    tf = pj.FILES[truth]
+                    tf = P.files[truth]
                     if exc is not None:
                         sites.append(site(post == snap, dict(facts, field="rejected_sync_changes_nothing"), fail="files_changed_by_failed_sync",
                                           files=sorted(f for f, c in changed.items() if c), exc=type(exc).__name__))
@@ -122,13 +177,17 @@ class C10(core.Check):
                         sites.append(site(not changed.get(tf, False), dict(facts, field="truth_untouched"), fail="truth_file_modified"))
                         rp = {os.path.basename(a): bool(b) for a, b in (rep or {}).items()}
                         for k in kinds:
-                            fn = pj.FILES[k]
+                            fn = P.files[k]
+                            if cfg == "shared" and k in ("function", "argparse_function"):
+                                # one report entry per file: it must be true iff the file changed (either kind may have changed it)
+                                if k == "argparse_function":
+                                    continue
                             role = "truth" if k == truth else "target"
                             sites.append(site(rp.get(fn) == changed.get(fn, False), dict(facts, field="returned_report", file=pj.SHORT[k], role=role),
                                               fail="report_untruthful", reported=rp.get(fn), bytes_changed=changed.get(fn, False)))
                         pr = printed_report(out)
                         for fn, said in pr.items():
-                            k = [kk for kk in pj.KINDS if pj.FILES[kk] == fn]
+                            k = [kk for kk in pj.KINDS if P.files[kk] == fn]
                             sites.append(site(said == changed.get(fn, False), dict(facts, field="printed_report", file=pj.SHORT[k[0]] if k else fn),
                                               fail="printed_report_untruthful", printed="modified" if said else "unchanged",
                                               bytes_changed=changed.get(fn, False)))
@@ -136,12 +195,12 @@ class C10(core.Check):
                         exc2, rep2, out2 = P.sync(truth, kinds, "api")
                         post2 = P.snapshot()
                         transitions += 1
-                        diff = sorted(pj_short(fn) for fn in set(post) | set(post2) if post.get(fn) != post2.get(fn))
+                        diff = sorted(short_of(P, fn) for fn in set(post) | set(post2) if post.get(fn) != post2.get(fn))
                         sites.append(site(post2 == post and exc2 is None, dict(facts, field="second_sync_is_noop"), fail="second_sync_changes_files",
                                           files=diff, exc=type(exc2).__name__ if exc2 else None))
                         if exc2 is None:
                             rp2 = {os.path.basename(a): bool(b) for a, b in (rep2 or {}).items()}
-                            lying = sorted(pj_short(fn) for fn, b in rp2.items() if b != (post.get(fn) != post2.get(fn)))
+                            lying = sorted(short_of(P, fn) for fn, b in rp2.items() if b != (post.get(fn) != post2.get(fn)))
                             sites.append(site(not lying, dict(facts, field="second_sync_report"), fail="report_untruthful_on_second_run", files=lying))
                 k2 = key(post)
                 if k2 not in seen:
